@@ -66,10 +66,21 @@ impl Qcow2Info {
             default_bytes: usize,
             bs_bits: u8,
             cluster_shift: u8,
-        ) -> (u8, usize) {
-            match param {
+        ) -> Qcow2Result<(u8, usize)> {
+            Ok(match param {
                 Some((b, s)) => {
-                    debug_assert!(b >= bs_bits && u32::from(b) <= cluster_shift as u32);
+                    // The caller picks the slice size before the image's
+                    // cluster size is known: a slice can't be bigger than
+                    // the cluster holding it (same as the default below).
+                    let b = std::cmp::min(b, cluster_shift);
+                    if b < bs_bits {
+                        return Err(format!(
+                            "cache slice size {} is smaller than the block size {}",
+                            1u64 << b,
+                            1u64 << bs_bits
+                        )
+                        .into());
+                    }
                     assert!((s >> b) >= 2);
                     (b, s >> b)
                 }
@@ -80,7 +91,7 @@ impl Qcow2Info {
 
                     (bits, cnt)
                 }
-            }
+            })
         }
 
         let l2_mapping_bytes = std::cmp::min(h.size() >> (cluster_shift - 3), 32 << 20) as usize;
@@ -89,9 +100,9 @@ impl Qcow2Info {
             l2_mapping_bytes,
             block_size_shift,
             cluster_shift,
-        );
+        )?;
         let (rb_slice_bits, rb_cache_cnt) =
-            cache_geometry(p.rb_cache, 256 << 10, block_size_shift, cluster_shift);
+            cache_geometry(p.rb_cache, 256 << 10, block_size_shift, cluster_shift)?;
 
         //todo: support extended l2
         let l2_entries = cluster_size / std::mem::size_of::<u64>();
